@@ -430,6 +430,18 @@ def run_case(case):
         return Outcome(viol, nontrivial and not viol, lab)
 
     a, b = sides["A"], sides["B"]
+    if (kind == "ParzenWindowClassifier"
+            and cfg["params"].get("metric", "rbf") not in ("rbf",
+                                                           "laplacian")):
+        # kernels that take negative values: class frequencies are sums with
+        # cancellation, a total mass of exactly 0 versus 1e-18 (summation
+        # order changes with the number of rows) flips the normalised
+        # probabilities between "uniform" and "one-hot". Only the frequency
+        # estimates themselves are compared for these kernels.
+        for side in (a, b):
+            side.pop("proba", None)
+            side.pop("predict", None)
+        lab.append("compared=freq_only")
     tol = ALR_TOL if kind == "AnnotatorLogisticRegression" else DIFF
     trig = f"weights={weighted}&variant={case['variant']}"
     if case.get("wl_B"):
